@@ -20,7 +20,8 @@ def main():
     metaf = os.path.join(out, 'm%s_meta.json' % k)
     meta = json.load(open(metaf)) if os.path.exists(metaf) else {}
     res = {'property': prop, 'source': 'independent sub-agent given only the property text', 'summary': meta.get('summary'),
-           'needs_to_manifest': meta.get('needs_to_manifest'), 'files_touched': meta.get('files_touched')}
+           'needs_to_manifest': meta.get('needs_to_manifest'), 'files_touched': meta.get('files_touched'),
+           'clause_broken': meta.get('clause_broken'), 'why_a_systematic_checker_might_miss_it': meta.get('why_a_systematic_checker_might_miss_it')}
     if not os.path.isdir(SCR):
         os.makedirs(os.path.dirname(SCR), exist_ok=True)
         print(sh('git -C /repo worktree add -f --detach %s HEAD' % SCR).stdout[-300:])
@@ -29,7 +30,7 @@ def main():
     shf = os.path.join(out, 'm%s_demo.sh' % k)
     if os.path.exists(shf):
         demo = 'sh %s %s' % (shf, SCR)
-    demo = re.sub(r'/tmp/seed/C\d+/wt', SCR, demo)
+    demo = re.sub(r'/tmp/seed2?/C\d+/wt', SCR, demo)
     if not demo:
         # fall back: comment at top of the demo source
         src = open(os.path.join(out, 'm%s_demo.c' % k)).read()
@@ -72,7 +73,7 @@ def main():
     res['checks_run'] = det
     res['detected_by'] = [c for c, d in det.items() if d['rc'] == 1 and d['violations'] > 0]
     res['ran'] = 'tools/seedtest.py: scratch worktree build + ctest + demo (clean/mutant), then ./vcheck <id> --tier quick on /repo with the patch applied, patch undone'
-    d = os.path.join(ROOT, 'seeded', '%s-m%s' % (prop, k))
+    d = os.path.join(ROOT, 'seeded', '%s-%sm%s' % (prop, os.environ.get('SEEDTAG', ''), k))
     os.makedirs(d, exist_ok=True)
     shutil.copy(patch, os.path.join(d, 'patch.diff'))
     for f in glob.glob(os.path.join(out, 'm%s_demo*' % k)):
